@@ -74,3 +74,21 @@ Proof.
     + unfold len. cbn [length app]. rewrite ?app_length, ?le_bytes_length. reflexivity.
     + split; [right; reflexivity|]. split; [exact Hs|]. cbn [firstn skipn app]. split; [reflexivity|]. intros _. split; reflexivity.
 Qed.
+
+(* ---- a header that carries its own CRC contributes nothing to the running CRC: CRC(header ++ records) = CRC(records) *)
+#[local] Transparent write le_bytes.
+Lemma own_crc_sweep : forallb (fun s => write s (le_bytes 2 s) =? 0) (Nrange 65536) = true.
+Proof. vm_compute. reflexivity. Qed.
+Lemma write_own_crc s : s < 65536 -> write s (le_bytes 2 s) = 0.
+Proof.
+  intros H. pose proof own_crc_sweep as Hs. rewrite forallb_forall in Hs.
+  specialize (Hs s (in_Nrange _ _ H)). apply N.eqb_eq. exact Hs.
+Qed.
+#[local] Opaque write le_bytes.
+
+Theorem crc_header14_transparent h12 records : bytes_ok h12 ->
+  write 0 ((h12 ++ le_bytes 2 (write 0 h12)) ++ records) = write 0 records.
+Proof.
+  intros Hok. rewrite !write_app. rewrite write_own_crc; [reflexivity|].
+  apply (C18_state_bounded h12 Hok).
+Qed.
